@@ -2,6 +2,7 @@ import FranzVerif.Gen.C29
 import FranzVerif.Model.C29
 import FranzVerif.Model.C29Client
 import FranzVerif.Proof.C29Client
+import FranzVerif.Proof.C29Arrival
 /-! C29 — property theorems (sequence numbers wrap modulo 2^31 in the client and in kfake).
 
 `Gen.C29.incrementSequence`, `Gen.C29K.kfakeSeqMod` and `Gen.C29S` (every write to a sequence field in
@@ -462,6 +463,33 @@ example : ((LMon.init 31).run [.batch 0 31 14, .batch 0 45 5, .batch 0 68 5, .ba
 example : (((LMon.init 31).run [.batch 0 31 14, .batch 0 45 5, .batch 0 68 5, .batch 0 50 17]).map (·.done)) = some false := by decide
 /-- the first batch written (31+14) never arrives at first, nor does the first batch of the new epoch (0+3) -/
 example : (((LMon.init 31).run [.batch 0 45 5, .batch 0 31 14, .reset, .batch 1 3 2, .batch 1 0 3]).map (fun m => (m.done, m.nextSeq))) = some (true, 5) := by decide
+
+/-- **Soundness of the arrival monitor with respect to losses** (`Proof.C29Arrival`): a write order that `Mon` accepts, whose
+epochs follow the `.reset` events (`Stamped`: every batch carries the current value of an epoch counter that every `.reset`
+moves up — without this the statement is false, `Proof.C29Arrival.counterexample_reset_inside_epoch`, `…_epoch_reused`) and
+which holds fewer than 2^31 records (`…counterexample_wrap`), is never refused by `LMon` in ANY view `sub` of it in which
+an arbitrary set of batches, the first one included, is lost. -/
+theorem lmon_sound_under_loss (e f n : Int) (es sub : List Ev) (m : Mon)
+    (hacc : Mon.run {} (.batch e f n :: es) = some m) (hthin : Proof.C29Arrival.Thin (.batch e f n :: es) sub)
+    (hst : Proof.C29Arrival.Stamped e (.batch e f n :: es))
+    (hsum : Proof.C29Arrival.total (.batch e f n :: es) < 2147483648) :
+    ((LMon.init f).run sub).isSome = true :=
+  Proof.C29Arrival.arrival_never_refuses e f n es sub m hacc hthin hst hsum
+
+/-- The same for the client model: for every schedule of client operations with fewer than 2^31 records written in all,
+whatever subset of the written batches arrives, the arrival monitor (started at any sequence) does not refuse. -/
+theorem client_lossy_histories (s : BitVec 32) (hs : s.toNat < 2147483648) (ops : List Model.C29C.Op) (sub : List Ev)
+    (start : Int) (hthin : Proof.C29Arrival.Thin ((RecBuf.init s).wire ops) sub)
+    (hsum : Proof.C29Arrival.total ((RecBuf.init s).wire ops) < 2147483648) :
+    ((LMon.init start).run sub).isSome = true := by
+  have hacc := client_all_histories s hs ops
+  simp only [chainOk] at hacc
+  cases hm : Mon.run {} ((RecBuf.init s).wire ops) with
+  | none => simp [hm] at hacc
+  | some m =>
+    obtain ⟨l, hl, _⟩ := Proof.C29Arrival.arrival_sound start _ _ sub m hm hthin
+      (Proof.C29Arrival.wire_stamped ops (RecBuf.init s)) hsum
+    simp [hl]
 
 end Client
 
